@@ -18,7 +18,7 @@ from typing import Callable, Iterable, Optional
 
 from .term import Term, mk_op, subterms, tstr
 
-MAX_ATOMS = 14
+MAX_ATOMS = 17
 
 
 class Undecided(Exception):
